@@ -24,14 +24,25 @@
    ancestor_block_complete, level_cover), so a merge round that answers None refutes a
    supermajority on the next level (merge_round_none) and the loop stops exactly at the ghost
    (merge_loop_max; fuel: the depth of a block is at most size t).
-   The descendant-list invariant is PROVED for all three paths of Insert (desc_ok: g_desc lists
-   exactly the child vote-nodes; insert_existing_desc_ok, insert_append_desc_ok,
-   insert_branch_desc_ok), so in every state of GraphInvBranch.reach_full FindGHOST from the base is
+   The descendant-list invariant is PROVED for all three paths of Insert (desc_exact: g_desc lists
+   exactly the child vote-nodes; insert_existing_desc_exact, insert_append_desc_exact,
+   insert_branch_desc_exact), so in every state of GraphInvBranch.reach_full FindGHOST from the base is
    the specification's ghost of the phase (reach_full_find_ghost_is_spec_ghost), for tolerant vote
    sets over blocks of the tree.
-   NOT proved here: the case current = Some c (the [force] constraint of the restart from the
-   previous ghost) beyond soundness; reach_full keeps its premise branch_complete (completeness of
-   findContainingNodes) on the introduceBranch step. *)
+   RESTART (current = Some c, as Round passes its previous ghost): if c has a vote-node the search
+   is the same from c (find_ghost_max_node; None iff c has no supermajority: find_ghost_node_none);
+   if c lies inside an ancestor edge the descent and the merge loop are constrained to the child
+   vote-nodes through c ([force]); when c still has a supermajority (so c is an ancestor of the
+   ghost) the constrained rounds still collect every supporter of the ghost (child_through,
+   level_cover_forced, merge_loop_max_forced) and the answer is the ghost (find_ghost_max_edge; only
+   the SOUNDNESS of findContainingNodes is used -- if it misses the edge the search falls back to
+   the base, which is correct as well).  Together: find_ghost_restart.
+   NOT proved here: a restart from a block without a vote-node that has NO supermajority (only
+   soundness holds; Round never does this in a tolerant round: ghosts only move down their chain);
+   the correspondence between the bookkeeping of Round.import (voteTracker / [stored]) and the
+   constructors of reach_full (the memoisation step itself is reach_full_ghost_memo_step, and
+   PrecommitGHOST on a reachable state is precommit_ghost_is_spec_ghost); reach_full keeps its premise
+   branch_complete (completeness of findContainingNodes) on the introduceBranch step. *)
 From Coq Require Import List Arith Lia Bool NArith.
 From Grandpa Require Import Tree Votes RoundSpec RoundProofs.
 From C20 Require Import Model ProofsPossible Graph GraphInv GraphInvAppend GraphProofs GraphTracker
@@ -39,7 +50,7 @@ From C20 Require Import Model ProofsPossible Graph GraphInv GraphInvAppend Graph
 Import ListNotations.
 
 (* ---- generic facts ---- *)
-Lemma chain_nth_depth t : forall d k a, nth_error (chain t d) k = Some a -> (depth t a + k = depth t d)%nat.
+Lemma chain_nth_depth_sum t : forall d k a, nth_error (chain t d) k = Some a -> (depth t a + k = depth t d)%nat.
 Proof.
   intro d. induction d as [|d NZ IH] using (block_ind t); intros k a H.
   - rewrite chain_0 in H. destruct k as [|[|k]]; cbn in H; try discriminate. injection H as <-. rewrite depth_0. lia.
@@ -48,7 +59,7 @@ Proof.
     + apply IH in H. rewrite (depth_nz t d NZ). lia.
 Qed.
 
-Lemma chain_nth_anc t : forall d c, anc t c d -> nth_error (chain t d) (depth t d - depth t c) = Some c.
+Lemma chain_nth_of_anc t : forall d c, anc t c d -> nth_error (chain t d) (depth t d - depth t c) = Some c.
 Proof.
   intro d. induction d as [|d NZ IH] using (block_ind t); intros c A.
   - apply anc_0 in A. subst. reflexivity.
@@ -86,7 +97,7 @@ Proof.
       eapply anc_trans; [exact A2|apply anc_parent].
 Qed.
 
-Lemma last_opt_nth {A} (l : list A) p : last_opt l = Some p -> nth_error l (length l - 1) = Some p.
+Lemma last_opt_nth_error {A} (l : list A) p : last_opt l = Some p -> nth_error l (length l - 1) = Some p.
 Proof.
   induction l as [|a r IH]; [discriminate|]. destruct r as [|b r'].
   - cbn. congruence.
@@ -94,7 +105,7 @@ Proof.
     cbn [length] in *. replace (S (S (length r')) - 1)%nat with (S (S (length r') - 1)) by lia. exact IH.
 Qed.
 
-Lemma nth_error_firstn_lt {A} (l : list A) : forall n k, (k < n)%nat -> nth_error (firstn n l) k = nth_error l k.
+Lemma nth_error_firstn_below {A} (l : list A) : forall n k, (k < n)%nat -> nth_error (firstn n l) k = nth_error l k.
 Proof.
   induction l as [|x r IH]; intros n k L; [now rewrite firstn_nil|].
   destruct n as [|n]; [lia|]. destruct k as [|k]; [reflexivity|]. cbn [firstn nth_error]. apply IH. lia.
@@ -453,18 +464,18 @@ Proof.
   destruct (Nat.leb_spec (depth t d) (depth t c)) as [L|_]; [lia|].
   destruct (W d de ED) as [n GA].
   destruct (chain_head t d) as [r CH].
-  pose proof (chain_nth_anc t d c CD) as NC. rewrite CH in NC.
+  pose proof (chain_nth_of_anc t d c CD) as NC. rewrite CH in NC.
   replace (depth t d - depth t c)%nat with (Datatypes.S (depth t d - depth t c - 1)) in NC by lia.
   cbn [nth_error] in NC.
   (* the last element of g_anc is key *)
-  unfold ancestor_node in AN. pose proof (last_opt_nth _ _ AN) as LK.
+  unfold ancestor_node in AN. pose proof (last_opt_nth_error _ _ AN) as LK.
   assert (LEN : (length (g_anc de) = depth t d - depth t key)%nat).
   { assert (LP : (0 < length (g_anc de))%nat) by (destruct (g_anc de); [discriminate|cbn; lia]).
     assert (NK0 : forall m, nth_error (g_anc de) m = Some key -> nth_error (chain t d) (Datatypes.S m) = Some key).
     { intros m H. rewrite GA in H. apply nth_error_firstn_some in H. rewrite CH in *. exact H. }
     pose proof (NK0 _ LK) as NK.
-    apply chain_nth_depth in NK. lia. }
-  rewrite GA. rewrite CH. cbn [tl]. rewrite nth_error_firstn_lt; [exact NC|].
+    apply chain_nth_depth_sum in NK. lia. }
+  rewrite GA. rewrite CH. cbn [tl]. rewrite nth_error_firstn_below; [exact NC|].
   assert (length (g_anc de) <= n)%nat by (rewrite GA; apply firstn_le_length). lia.
 Qed.
 
@@ -475,7 +486,7 @@ Proof.
   destruct (W d e E) as [n GA]. rewrite GA in H. apply nth_error_firstn_some in H.
   destruct (chain_head t d) as [r CH].
   assert (NK : nth_error (chain t d) (Datatypes.S (depth t d - num - 1)) = Some db) by (rewrite CH in *; exact H).
-  apply chain_nth_depth in NK. lia.
+  apply chain_nth_depth_sum in NK. lia.
 Qed.
 
 (* ---- the active vote-node [key] after the descent ---- *)
@@ -665,6 +676,213 @@ Proof.
   apply (merge_point_max k' e' E'); [|exact KF]. now rewrite <- (node_cnd k' e' E').
 Qed.
 
+(* ---- the restart from a previous ghost c inside an ancestor edge: the [force] constraint ---- *)
+Lemma find_ghost_base_eq heads : (exists e0, eget 0%nat G = Some e0) ->
+  find_ghost t lbl G heads None cnd = Some g.
+Proof.
+  intro BASE. destruct (find_ghost t lbl G heads None cnd) as [b|] eqn:F.
+  - f_equal. exact (find_ghost_max heads b F).
+  - apply (find_ghost_none_iff heads BASE) in F. congruence.
+Qed.
+
+Section Forced.
+Variable a : block.
+Variable ea : entry.
+Hypothesis EA : eget a G = Some ea.
+Variable c : block.
+Hypothesis CN : eget c G = None.
+Hypothesis AC : anc t a c.
+Hypothesis SC : has_supermajority t ws S c = true.
+(* c lies in the ancestor edge of a child vote-node d0 of a *)
+Variable d0 : block.
+Variable e0 : entry.
+Hypothesis ED0 : eget d0 G = Some e0.
+Hypothesis AN0 : ancestor_node e0 = Some a.
+Hypothesis CD0 : anc t c d0.
+
+Definition dsc : dnodes :=
+  flat_map (fun d => match constrained t G (Some c) d with Some x => [x] | None => [] end) (g_desc ea).
+
+Lemma NAC : a <> c.
+Proof. intro E. subst c. congruence. Qed.
+
+Lemma CG : anc t c g.
+Proof. now apply sm_anc_g. Qed.
+
+Lemma no_node_between y ey : eget y G = Some ey -> anc t y c -> anc t y a.
+Proof.
+  intros EY A. pose proof (CI d0 e0 ED0) as C. rewrite AN0 in C. destruct C as [_ [_ [_ M]]].
+  apply (M y ey EY); [eapply anc_trans; eauto|].
+  intro E. subst y. assert (c = d0) by (now apply (anc_antisym t)). subst c. congruence.
+Qed.
+
+(* a child vote-node of a above a block z below c is below c *)
+Lemma child_through d de z : eget d G = Some de -> ancestor_node de = Some a ->
+  anc t d z -> anc t c z -> anc t c d /\ c <> d.
+Proof.
+  intros ED AN DZ CZ. split; [|intro E; subst d; congruence].
+  destruct (anc_linear t c d z CZ DZ) as [X|X]; [exact X|exfalso].
+  pose proof (no_node_between d de ED X) as DA.
+  pose proof (CI d de ED) as C. rewrite AN in C. destruct C as [_ [AD [N _]]].
+  apply N. now apply (anc_antisym t).
+Qed.
+
+Lemma dsc_complete d de : eget d G = Some de -> ancestor_node de = Some a -> anc t c d -> c <> d ->
+  In (d, de) dsc.
+Proof.
+  intros ED AN CD NCD. unfold dsc. apply in_flat_map. exists d. split; [exact (DC a ea d de EA ED AN)|].
+  unfold constrained. rewrite ED. unfold in_direct_ancestry.
+  rewrite (ancestor_block_complete a d de c ED AN AC NAC CD NCD). rewrite Nat.eqb_refl. now left.
+Qed.
+
+Lemma dsc_ok : ds_ok dsc.
+Proof. apply constrained_ds_ok. Qed.
+
+(* the descent stopped at a: no listed descendant vote-node through c meets the condition *)
+Hypothesis KFc : forall d de, In (d, de) dsc -> cnd (g_cum de) = false.
+
+Lemma level_cover_forced c' v (ds : dnodes) :
+  anc t a c' -> a <> c' -> anc t c' g ->
+  (forall d de, eget d G = Some de -> ancestor_node de = Some a -> anc t c' d -> c' <> d -> anc t c d -> In (d, de) ds) ->
+  (forall d de, In (d, de) ds -> ancestor_block t d de (number t c') = Some c' ->
+     forall bt, memb bt (g_cum de) = true -> memb bt v = true) ->
+  cnd v = true.
+Proof.
+  intros AKC NKC C'G CMP COV. unfold cnd, cond_ph, th. apply N.leb_le.
+  pose proof (g_sm_anc g (anc_refl t g)) as SG. unfold has_supermajority in SG. apply N.leb_le in SG.
+  assert (LE : (weight t ws S g <= bits_weight ws v eqv ph)%N); [|lia].
+  unfold weight, bits_weight. apply wsum_mono. intros vo SP. destruct TR as [TE TI].
+  rewrite <- first_under_supports in SP. apply orb_prop in SP. destruct SP as [FU|EQ]; [|rewrite TE, EQ; apply orb_true_r].
+  rewrite <- TI in FU. unfold ins_bit in FU. apply existsb_exists in FU. destruct FU as [p [IP HP]].
+  apply andb_true_iff in HP. destruct HP as [HB HA]. apply Nat.eqb_eq in HB. apply ancb_spec in HA.
+  destruct (IN p IP) as [ez EZ].
+  assert (CZ : anc t c (fst p)) by (eapply anc_trans; [exact CG|exact HA]).
+  assert (C'Z : anc t c' (fst p)) by (eapply anc_trans; [exact C'G|exact HA]).
+  assert (KZ : anc t a (fst p)) by (eapply anc_trans; [exact AC|exact CZ]).
+  assert (NKZ : a <> fst p).
+  { intro E. rewrite <- E in CZ. apply NAC. now apply (anc_antisym t). }
+  destruct (nearest_child a (ex_intro _ ea EA) (fst p) ez EZ KZ NKZ) as [d [de [ED [AN DZ]]]].
+  assert (MB : memb (2 * vo + ph) (g_cum de) = true).
+  { rewrite (CO d de ED). apply existsb_exists. exists p. split; [exact IP|].
+    apply andb_true_iff. split; [now apply Nat.eqb_eq|now apply ancb_spec]. }
+  destruct (child_through d de (fst p) ED AN DZ CZ) as [CD NCD].
+  assert (NS : has_supermajority t ws S d = false).
+  { rewrite <- (node_cnd d de ED). apply (KFc d de). now apply dsc_complete. }
+  assert (C'D : anc t c' d /\ c' <> d).
+  { destruct (anc_linear t c' d (fst p) C'Z DZ) as [X|X].
+    - split; [exact X|]. intro E. subst d. rewrite (g_sm_anc c' C'G) in NS. discriminate.
+    - exfalso. assert (anc t d g) by (eapply anc_trans; eauto). rewrite (g_sm_anc d H) in NS. discriminate. }
+  destruct C'D as [C'D NC'D].
+  rewrite (COV d de (CMP d de ED AN C'D NC'D CD) (ancestor_block_complete a d de c' ED AN AKC NKC C'D NC'D) _ MB).
+  reflexivity.
+Qed.
+
+Lemma merge_loop_max_forced : forall fuel num ds best,
+  (size t < fuel + num)%nat -> number t best = num -> anc t a best -> anc t best g ->
+  ds_ok ds -> (forall d de, In (d, de) ds -> cnd (g_cum de) = false) ->
+  (forall d de, eget d G = Some de -> ancestor_node de = Some a -> anc t best d -> best <> d -> anc t c d ->
+     In (d, de) ds) ->
+  merge_loop t fuel cnd num ds best = g.
+Proof.
+  induction fuel as [|f IH]; intros num ds best FU NB KB BG DSO FALSE CMP.
+  - exfalso. pose proof (depth_le_size t best). unfold number in NB. lia.
+  - cbn [merge_loop]. destruct (merge_round t cnd (Datatypes.S num) ds []) as [nb|] eqn:MR.
+    + assert (WN : witnessed nb) by (apply (merge_round_sound (Datatypes.S num) ds [] nb DSO); [intros x w []|exact MR]).
+      pose proof (witnessed_anc_g nb WN) as NG.
+      destruct (merge_round_some_in t cnd (Datatypes.S num) ds [] nb MR) as [d [de [I AB]]].
+      pose proof (ancestor_block_number d de (Datatypes.S num) nb (DSO d de I) AB) as NN.
+      assert (BN : anc t best nb).
+      { destruct (anc_linear t best nb g BG NG) as [X|X]; [exact X|]. apply anc_depth_le in X. unfold number in *. lia. }
+      assert (NE : best <> nb) by (intro E; subst best; unfold number in *; lia).
+      assert (KN : anc t a nb) by (eapply anc_trans; eauto).
+      assert (NKN : a <> nb).
+      { intro E. subst nb. pose proof (anc_antisym t a best KB BN). congruence. }
+      apply IH.
+      * lia.
+      * exact NN.
+      * exact KN.
+      * exact NG.
+      * intros d' de' I'. apply filter_In in I'. apply DSO. exact (proj1 I').
+      * intros d' de' I'. apply filter_In in I'. apply (FALSE d' de'). exact (proj1 I').
+      * intros d' de' ED AN A' N' CD'. apply filter_In. split.
+        -- apply CMP; [exact ED|exact AN|eapply anc_trans; eauto| |exact CD'].
+           intro E. subst d'. apply NE. now apply (anc_antisym t).
+        -- cbn [fst snd]. unfold in_direct_ancestry. rewrite <- NN.
+           rewrite (ancestor_block_complete a d' de' nb ED AN KN NKN A' N'). now rewrite Nat.eqb_refl.
+    + destruct (Nat.eq_dec best g) as [E|NE]; [exact E|exfalso].
+      destruct (child_on_path t best g BG NE) as [c' [BC [C'G DC']]].
+      assert (NC : number t c' = Datatypes.S num) by (unfold number in *; lia).
+      assert (NBC : best <> c') by (intro E; subst c'; lia).
+      destruct (merge_round_none t cnd (Datatypes.S num) ds [] FALSE (fun _ => cnd_nil) MR c') as [v [CV [_ COV]]].
+      assert (CT : cnd v = true); [|congruence].
+      apply (level_cover_forced c' v ds).
+      * eapply anc_trans; eauto.
+      * intro E. subst c'. apply NBC. now apply (anc_antisym t).
+      * exact C'G.
+      * intros d de ED AN CD NCD CCD. apply CMP; [exact ED|exact AN|eapply anc_trans; eauto| |exact CCD].
+        intro E. subst d. apply NBC. now apply (anc_antisym t).
+      * intros d de I AB. apply (COV d de I). now rewrite <- NC.
+Qed.
+
+Lemma merge_point_max_forced : merge_point t G a ea (Some c) cnd = g.
+Proof.
+  unfold merge_point. fold dsc. apply merge_loop_max_forced.
+  - lia.
+  - reflexivity.
+  - apply anc_refl.
+  - eapply anc_trans; [exact AC|exact CG].
+  - exact dsc_ok.
+  - exact KFc.
+  - intros d de ED AN _ _ CD. apply dsc_complete; [exact ED|exact AN|exact CD|]. intro E. subst d. congruence.
+Qed.
+
+End Forced.
+
+Lemma find_ghost_forced a ea c d0 e0 : eget a G = Some ea -> eget c G = None -> anc t a c ->
+  has_supermajority t ws S c = true ->
+  eget d0 G = Some e0 -> ancestor_node e0 = Some a -> anc t c d0 ->
+  (let '(k, e, f) := descend t (Datatypes.S (length G)) G cnd a ea (Some c) in merge_point t G k e f cnd) = g.
+Proof.
+  intros EA CN AC SC ED0 AN0 CD0. cbn [descend]. fold (dsc ea c).
+  destruct (find (fun p => cnd (g_cum (snd p))) (dsc ea c)) as [[d de]|] eqn:F.
+  - pose proof (find_some _ _ F) as [I CD]. cbn [snd] in CD.
+    pose proof (dsc_ok ea c d de I) as ED.
+    assert (ID : In d (g_desc ea)).
+    { unfold dsc in I. apply in_flat_map in I. destruct I as [x [IX I]]. unfold constrained in I.
+      destruct (eget x G) as [ex|]; [|destruct I].
+      destruct (in_direct_ancestry t x ex c (number t c)) as [[|]|]; cbn [In] in I; try contradiction.
+      destruct I as [I|[]]. injection I as -> _. exact IX. }
+    pose proof (DS a ea d de EA ID ED) as AN.
+    pose proof (CI d de ED) as CH. rewrite AN in CH. destruct CH as [_ [A [N _]]].
+    assert (L : (a < d)%nat) by (apply anc_le in A; lia).
+    destruct (descend t (length G) G cnd d de None) as [[k' e'] f'] eqn:D.
+    assert (AB : (above d < length G)%nat) by (pose proof (above_lt a d de ED L); pose proof (above_le a); lia).
+    destruct (descend_max _ _ _ _ _ _ ED CD AB D) as [E' [C' [-> KF]]].
+    apply (merge_point_max k' e' E'); [|exact KF]. now rewrite <- (node_cnd k' e' E').
+  - apply merge_point_max_forced with (d0 := d0) (e0 := e0); auto.
+    intros d de I. exact (find_none _ _ F (d, de) I).
+Qed.
+
+Theorem find_ghost_max_edge heads c : (exists e0, eget 0%nat G = Some e0) ->
+  eget c G = None -> has_supermajority t ws S c = true ->
+  find_ghost t lbl G heads (Some c) cnd = Some g.
+Proof.
+  intros BASE CN SC. pose proof (find_ghost_base_eq heads BASE) as FB. unfold find_ghost in FB |- *.
+  destruct (find_containing t lbl G heads c) as [[|d l]|] eqn:FC.
+  - exact FB.
+  - destruct (branch_sound_of_wf t lbl G heads c (d :: l) W FC d (or_introl eq_refl)) as [de [ED [_ [CD AP]]]].
+    rewrite ED. destruct (ancestor_node de) as [a|] eqn:AN; [|exact FB].
+    pose proof (AP a eq_refl) as AC.
+    pose proof (CI d de ED) as CH. rewrite AN in CH. destruct CH as [[ea EA] _].
+    rewrite EA.
+    assert (CA : cnd (g_cum ea) = true).
+    { rewrite (node_cnd a ea EA). exact (has_supermajority_anc t ws S a c AC SC). }
+    rewrite CA. cbn [negb].
+    pose proof (find_ghost_forced a ea c d de EA CN AC SC ED AN CD) as FF.
+    destruct (descend t (Datatypes.S (length G)) G cnd a ea (Some c)) as [[k e] f]. now rewrite FF.
+  - exfalso. unfold find_containing in FC. rewrite CN in FC. discriminate.
+Qed.
+
 (* the restart from a previous ghost c that has a vote-node: the same search from c *)
 Theorem find_ghost_max_node heads c ec b : eget c G = Some ec ->
   find_ghost t lbl G heads (Some c) cnd = Some b -> b = g.
@@ -685,6 +903,16 @@ Proof.
   rewrite (node_cnd c ec EC). destruct (has_supermajority t ws S c); cbn [negb].
   - destruct (descend t (Datatypes.S (length G)) G cnd c ec None) as [[k' e'] f']. split; discriminate.
   - split; reflexivity.
+Qed.
+
+(* the restart from ANY block c that still has a supermajority (the previous ghost): the ghost *)
+Theorem find_ghost_restart heads c : (exists e0, eget 0%nat G = Some e0) ->
+  has_supermajority t ws S c = true -> find_ghost t lbl G heads (Some c) cnd = Some g.
+Proof.
+  intros BASE SC. destruct (eget c G) as [ec|] eqn:EC; [|now apply find_ghost_max_edge].
+  destruct (find_ghost t lbl G heads (Some c) cnd) as [b|] eqn:F.
+  - f_equal. exact (find_ghost_max_node heads c ec b EC F).
+  - apply (find_ghost_node_none heads c ec EC) in F. congruence.
 Qed.
 
 End Sound.
@@ -728,9 +956,28 @@ Proof.
   - pose proof (proj1 NI eq_refl). discriminate.
 Qed.
 
+(* ... and from any block c that has a supermajority -- the use in Round: c is the previous ghost
+   (a vote-node or a block inside an ancestor edge: the [force] constraint) *)
+Theorem find_ghost_restart_is_spec_ghost t lbl ws G ins ph S eqv heads c :
+  chain_inv t G -> cum_ok t G ins -> anc_wf t G -> tracker_ok t ph S eqv ins ->
+  (exists e0, eget 0%nat G = Some e0) ->
+  (forall p, In p ins -> exists e, eget (fst p) G = Some e) ->
+  desc_complete G -> desc_sound G ->
+  (0 < total ws)%N -> tolerant ws S = true -> (forall x, In x S -> in_tree t (vblock x)) ->
+  has_supermajority t ws S c = true ->
+  find_ghost t lbl G heads (Some c) (cond_ph ws eqv ph) = ghost t ws S.
+Proof.
+  intros CI CO W TR BASE IN DC DS TP TOL IT SC.
+  destruct (supermajority_has_vote t lbl ws S c TP TOL SC) as [x [I A]].
+  assert (IB : in_tree t c) by (eapply anc_in_tree; [exact A|now apply IT]).
+  destruct (ghost_some_of t ws S c IB SC) as [g GH]. rewrite GH.
+  exact (find_ghost_restart t lbl ws G ins ph S eqv CO W TR CI IN DC TP TOL IT g GH DS heads c BASE SC).
+Qed.
+
 (* non-vacuity: tree 0 - 1, 1 - 2, 1 - 3; three voters of weight 1 prevote 2, 3, 3 (append, append,
    existing node): the vote-nodes are 0, 2, 3 and the ghost is block 1, a merge point inside the
-   ancestor edges of 2 and 3; all hypotheses of find_ghost_is_spec_ghost hold in that state *)
+   ancestor edges of 2 and 3; all hypotheses of find_ghost_is_spec_ghost hold in that state; the
+   restart from block 1 (inside the edges: the [force] case) answers 1 again *)
 Example find_ghost_example :
   let t := [0; 1; 1]%nat in let ws := [1; 1; 1]%N in let lbl := fun b : block => b in
   exists G heads S ins,
@@ -738,7 +985,8 @@ Example find_ghost_example :
     S 0%nat = [mkVote 0 2 0; mkVote 1 3 0; mkVote 2 3 0] /\ map fst G = [0; 2; 3]%nat /\
     desc_complete G /\ desc_sound G /\ tolerant ws (S 0%nat) = true /\
     (forall x, In x (S 0%nat) -> in_tree t (vblock x)) /\
-    find_ghost t lbl G heads None (cond_ph ws [] 0) = Some 1%nat /\ ghost t ws (S 0%nat) = Some 1%nat.
+    find_ghost t lbl G heads None (cond_ph ws [] 0) = Some 1%nat /\ ghost t ws (S 0%nat) = Some 1%nat /\
+    eget 1%nat G = None /\ find_ghost t lbl G heads (Some 1%nat) (cond_ph ws [] 0) = Some 1%nat.
 Proof.
   intros t ws lbl.
   pose (x0 := mkVote 0 2 0). pose (x1 := mkVote 1 3 0). pose (x2 := mkVote 2 3 0).
@@ -767,36 +1015,36 @@ Proof.
       cbn in IY; try contradiction; destruct IY as [<-|[<-|[]]]; cbn in EY; injection EY as <-; reflexivity. }
   split; [reflexivity|]. split.
   { intros x [<-|[<-|[<-|[]]]]; unfold in_tree, size, t; cbn; lia. }
-  split; reflexivity.
+  repeat split; reflexivity.
 Qed.
 
 
 
 (* ======================= the descendant lists ======================= *)
 (* g_desc lists exactly the child vote-nodes *)
-Definition desc_ok (G : entries) : Prop :=
+Definition desc_exact (G : entries) : Prop :=
   forall x e, eget x G = Some e -> forall y,
     In y (g_desc e) <-> exists ey, eget y G = Some ey /\ ancestor_node ey = Some x.
 
-Lemma desc_ok_complete G : desc_ok G -> desc_complete G.
+Lemma desc_exact_complete G : desc_exact G -> desc_complete G.
 Proof. intros D x e y ey EX EY AN. apply (D x e EX y). eauto. Qed.
 
-Lemma desc_ok_sound G : desc_ok G -> desc_sound G.
+Lemma desc_exact_sound G : desc_exact G -> desc_sound G.
 Proof.
   intros D x e y ey EX IY EY. apply (D x e EX y) in IY. destruct IY as [ey' [EY' AN]]. congruence.
 Qed.
 
-Lemma init_desc_ok : desc_ok (r_G rinit).
+Lemma init_desc_exact : desc_exact (r_G rinit).
 Proof.
   intros x e EX y. cbn in EX. destruct x; [|discriminate]. injection EX as <-. cbn [g_desc].
   split; [intros []|]. intros [ey [EY AN]]. cbn in EY. destruct y; [|discriminate]. injection EY as <-.
   discriminate.
 Qed.
 
-Lemma desc_ok_same G G' :
+Lemma desc_exact_same G G' :
   (forall y, option_map g_anc (eget y G') = option_map g_anc (eget y G)) ->
   (forall y, option_map g_desc (eget y G') = option_map g_desc (eget y G)) ->
-  desc_ok G -> desc_ok G'.
+  desc_exact G -> desc_exact G'.
 Proof.
   intros HA HD D x e' E' y. pose proof (HD x) as HX. rewrite E' in HX.
   destruct (eget x G) as [e|] eqn:E; [|discriminate]. cbn in HX. injection HX as HX. rewrite HX.
@@ -812,7 +1060,7 @@ Section Desc.
 Variable t : tree.
 Variable lbl : block -> nat.
 
-Lemma propagate_g_desc : forall fuel G x b y,
+Lemma propagate_keeps_g_desc : forall fuel G x b y,
   option_map g_desc (eget y (propagate fuel G x b)) = option_map g_desc (eget y G).
 Proof.
   induction fuel as [|f IH]; intros G x b y; [reflexivity|]. cbn [propagate].
@@ -823,18 +1071,18 @@ Proof.
   destruct (ancestor_node e); [now rewrite IH|exact S1].
 Qed.
 
-Lemma propagate_desc_ok fuel G x b : desc_ok G -> desc_ok (propagate fuel G x b).
-Proof. apply desc_ok_same; intro y; [apply propagate_g_anc|apply propagate_g_desc]. Qed.
+Lemma propagate_desc_exact fuel G x b : desc_exact G -> desc_exact (propagate fuel G x b).
+Proof. apply desc_exact_same; intro y; [apply propagate_g_anc|apply propagate_keeps_g_desc]. Qed.
 
 (* Insert of a vote for a block that has a vote-node *)
-Lemma insert_existing_desc_ok G heads h b e0 : eget h G = Some e0 -> desc_ok G ->
-  desc_ok (fst (insert t lbl G heads h b)).
-Proof. intros EH D. unfold insert, find_containing. rewrite EH. cbn [fst]. now apply propagate_desc_ok. Qed.
+Lemma insert_existing_desc_exact G heads h b e0 : eget h G = Some e0 -> desc_exact G ->
+  desc_exact (fst (insert t lbl G heads h b)).
+Proof. intros EH D. unfold insert, find_containing. rewrite EH. cbn [fst]. now apply propagate_desc_exact. Qed.
 
 (* Insert through append *)
-Lemma insert_append_desc_ok G heads h b : chain_inv t G -> (exists e0, eget 0%nat G = Some e0) ->
-  eget h G = None -> find_containing t lbl G heads h = Some [] -> desc_ok G ->
-  desc_ok (fst (insert t lbl G heads h b)).
+Lemma insert_append_desc_exact G heads h b : chain_inv t G -> (exists e0, eget 0%nat G = Some e0) ->
+  eget h G = None -> find_containing t lbl G heads h = Some [] -> desc_exact G ->
+  desc_exact (fst (insert t lbl G heads h b)).
 Proof.
   intros CI BASE EH FC D. unfold insert. rewrite FC. unfold append_node.
   assert (HNZ : h <> 0%nat) by (intro E; subst h; destruct BASE; congruence).
@@ -844,7 +1092,7 @@ Proof.
   destruct (first_entry_index G _ _ _ _ F) as [_ NTH]. rewrite Nat.sub_0_r in NTH.
   set (a' := mkE (g_anc ea) (g_desc ea ++ [h]) (g_cum ea)).
   set (ne := mkE (firstn (S i) (chain t (parent t h))) [] []).
-  apply propagate_desc_ok.
+  apply propagate_desc_exact.
   set (G1 := eset h ne (eset a a' G)).
   assert (ANE : a <> h) by (intro E; subst a; congruence).
   assert (G1get : forall y, eget y G1 = if (y =? h)%nat then Some ne
@@ -879,16 +1127,16 @@ Proof.
       * exact (D x e E y).
 Qed.
 
-Lemma reach_desc_ok G heads eqv S ins : reach t lbl G heads eqv S ins -> desc_ok G.
+Lemma reach_desc_exact G heads eqv S ins : reach t lbl G heads eqv S ins -> desc_exact G.
 Proof.
   induction 1 as [|G heads eqv S ins ph x e G' heads' R IH L NV EX INS
                    |G heads eqv S ins ph x G' heads' R IH L NV EN FC NB INS
                    |G heads eqv S ins ph x a R IH L FA NS
                    |G heads eqv S ins ph x R IH L H]; try exact IH.
-  - exact init_desc_ok.
-  - pose proof (insert_existing_desc_ok G heads (vblock x) (2 * vvoter x + ph) e EX IH) as P. now rewrite INS in P.
+  - exact init_desc_exact.
+  - pose proof (insert_existing_desc_exact G heads (vblock x) (2 * vvoter x + ph) e EX IH) as P. now rewrite INS in P.
   - destruct (reach_good t lbl G heads eqv S ins R) as [CI [_ [BASE _]]].
-    pose proof (insert_append_desc_ok G heads (vblock x) (2 * vvoter x + ph) CI BASE EN FC IH) as P.
+    pose proof (insert_append_desc_exact G heads (vblock x) (2 * vvoter x + ph) CI BASE EN FC IH) as P.
     now rewrite INS in P.
 Qed.
 
@@ -899,12 +1147,12 @@ Theorem reach_find_ghost_is_spec_ghost ws G heads eqv S ins ph :
   (0 < total ws)%N -> tolerant ws (S ph) = true -> (forall x, In x (S ph) -> in_tree t (vblock x)) ->
   find_ghost t lbl G heads None (cond_ph ws eqv ph) = ghost t ws (S ph).
 Proof.
-  intros R L TP TOL IT. pose proof (reach_desc_ok G heads eqv S ins R) as D.
+  intros R L TP TOL IT. pose proof (reach_desc_exact G heads eqv S ins R) as D.
   destruct (reach_full_invariants t lbl G heads eqv S ins (reach_sub t lbl G heads eqv S ins R))
     as [CI [CO [BASE [IN [TR W]]]]].
   apply (find_ghost_is_spec_ghost t lbl ws G ins ph (S ph) eqv heads); auto.
-  - now apply desc_ok_complete.
-  - now apply desc_ok_sound.
+  - now apply desc_exact_complete.
+  - now apply desc_exact_sound.
 Qed.
 
 End Desc.
@@ -914,7 +1162,7 @@ Variable t : tree.
 Variable lbl : block -> nat.
 
 (* the descendant list of the node introduceBranch accumulates *)
-Lemma fold_desc h : forall ds G0 ne0 prev0, (forall d, In d ds -> exists e, eget d G0 = Some e) ->
+Lemma fold_desc_list h : forall ds G0 ne0 prev0, (forall d, In d ds -> exists e, eget d G0 = Some e) ->
   exists ne, snd (fold_left (bstep t h) ds (G0, Some (ne0, prev0))) = Some (ne, prev0) /\
     g_desc ne = g_desc ne0 ++ ds.
 Proof.
@@ -944,7 +1192,7 @@ Proof.
   { intro y. rewrite <- (fold_fst t h ds G None ALL y). now rewrite F. }
   assert (M : exists ne, m1 = Some (ne, ancestor_node e1) /\ g_desc ne = ds).
   { rewrite DS in F. cbn [fold_left] in F. rewrite (bstep_some t h G None d1 e1 E1) in F.
-    destruct (fold_desc h r (eset d1 (trunc t h d1 e1) G)
+    destruct (fold_desc_list h r (eset d1 (trunc t h d1 e1) G)
                 (mkE (skipn (number t d1 - number t h) (g_anc e1)) ([] ++ [d1]) ([] ++ g_cum e1))
                 (ancestor_node e1)) as [ne [S1 GD]].
     { intros d' I. rewrite eget_eset. destruct (Nat.eqb_spec d' d1); [eauto|]. apply ALL. rewrite DS. now right. }
@@ -966,14 +1214,14 @@ Proof.
 Qed.
 
 (* Insert through introduceBranch *)
-Lemma insert_branch_desc_ok G heads h b ds : chain_inv t G ->
+Lemma insert_branch_desc_exact G heads h b ds : chain_inv t G ->
   eget h G = None -> find_containing t lbl G heads h = Some ds -> ds <> [] ->
-  branch_sound t G ds h -> desc_ok G ->
-  desc_ok (fst (insert t lbl G heads h b)).
+  branch_sound t G ds h -> desc_exact G ->
+  desc_exact (fst (insert t lbl G heads h b)).
 Proof.
   intros CI EH FC NE SND D. unfold insert. rewrite FC.
   destruct ds as [|d1 r] eqn:DS; [congruence|]. cbv iota. rewrite <- DS in *. clear NE. cbn [fst].
-  apply propagate_desc_ok.
+  apply propagate_desc_exact.
   assert (I1 : In d1 ds) by (rewrite DS; now left).
   assert (ALL : forall d, In d ds -> exists e, eget d G = Some e).
   { intros d I. destruct (SND d I) as [e [E _]]. eauto. }
@@ -1060,20 +1308,20 @@ Proof.
         -- destruct (OLDG y ey NY Y MB) as [ey0 [Y0 AN0]]. exists ey0. split; [exact Y0|congruence].
 Qed.
 
-Lemma reach_full_desc_ok G heads eqv S ins : reach_full t lbl G heads eqv S ins -> desc_ok G.
+Lemma reach_full_desc_exact G heads eqv S ins : reach_full t lbl G heads eqv S ins -> desc_exact G.
 Proof.
   induction 1 as [|G heads eqv S ins ph x e G' heads' R IH L NV EX INS
                    |G heads eqv S ins ph x G' heads' R IH L NV EN FC NB INS
                    |G heads eqv S ins ph x ds G' heads' R IH L NV EN FC NE CMP INS
                    |G heads eqv S ins ph x a R IH L FA NS
                    |G heads eqv S ins ph x R IH L H]; try exact IH.
-  - exact init_desc_ok.
-  - pose proof (insert_existing_desc_ok t lbl G heads (vblock x) (2 * vvoter x + ph) e EX IH) as P. now rewrite INS in P.
+  - exact init_desc_exact.
+  - pose proof (insert_existing_desc_exact t lbl G heads (vblock x) (2 * vvoter x + ph) e EX IH) as P. now rewrite INS in P.
   - destruct (reach_full_invariants t lbl G heads eqv S ins R) as [CI [_ [BASE _]]].
-    pose proof (insert_append_desc_ok t lbl G heads (vblock x) (2 * vvoter x + ph) CI BASE EN FC IH) as P.
+    pose proof (insert_append_desc_exact t lbl G heads (vblock x) (2 * vvoter x + ph) CI BASE EN FC IH) as P.
     now rewrite INS in P.
   - destruct (reach_full_invariants t lbl G heads eqv S ins R) as [CI [_ [_ [_ [_ W]]]]].
-    pose proof (insert_branch_desc_ok G heads (vblock x) (2 * vvoter x + ph) ds CI EN FC NE
+    pose proof (insert_branch_desc_exact G heads (vblock x) (2 * vvoter x + ph) ds CI EN FC NE
                   (branch_sound_of_wf t lbl G heads _ ds W FC) IH) as P.
     now rewrite INS in P.
 Qed.
@@ -1085,11 +1333,11 @@ Theorem reach_full_find_ghost_is_spec_ghost ws G heads eqv S ins ph :
   (0 < total ws)%N -> tolerant ws (S ph) = true -> (forall x, In x (S ph) -> in_tree t (vblock x)) ->
   find_ghost t lbl G heads None (cond_ph ws eqv ph) = ghost t ws (S ph).
 Proof.
-  intros R L TP TOL IT. pose proof (reach_full_desc_ok G heads eqv S ins R) as D.
+  intros R L TP TOL IT. pose proof (reach_full_desc_exact G heads eqv S ins R) as D.
   destruct (reach_full_invariants t lbl G heads eqv S ins R) as [CI [CO [BASE [IN [TR W]]]]].
   apply (find_ghost_is_spec_ghost t lbl ws G ins ph (S ph) eqv heads); auto.
-  - now apply desc_ok_complete.
-  - now apply desc_ok_sound.
+  - now apply desc_exact_complete.
+  - now apply desc_exact_sound.
 Qed.
 
 Theorem reach_full_find_ghost_from_node ws G heads eqv S ins ph c ec :
@@ -1099,11 +1347,63 @@ Theorem reach_full_find_ghost_from_node ws G heads eqv S ins ph c ec :
   find_ghost t lbl G heads (Some c) (cond_ph ws eqv ph) =
   if has_supermajority t ws (S ph) c then ghost t ws (S ph) else None.
 Proof.
-  intros R L TP TOL IT EC. pose proof (reach_full_desc_ok G heads eqv S ins R) as D.
+  intros R L TP TOL IT EC. pose proof (reach_full_desc_exact G heads eqv S ins R) as D.
   destruct (reach_full_invariants t lbl G heads eqv S ins R) as [CI [CO [BASE [IN [TR W]]]]].
   apply (find_ghost_from_node_is_spec_ghost t lbl ws G ins ph (S ph) eqv heads c ec); auto.
-  - now apply desc_ok_complete.
-  - now apply desc_ok_sound.
+  - now apply desc_exact_complete.
+  - now apply desc_exact_sound.
+Qed.
+
+Theorem reach_full_find_ghost_restart ws G heads eqv S ins ph c :
+  reach_full t lbl G heads eqv S ins -> (ph < 2)%nat ->
+  (0 < total ws)%N -> tolerant ws (S ph) = true -> (forall x, In x (S ph) -> in_tree t (vblock x)) ->
+  has_supermajority t ws (S ph) c = true ->
+  find_ghost t lbl G heads (Some c) (cond_ph ws eqv ph) = ghost t ws (S ph).
+Proof.
+  intros R L TP TOL IT SC. pose proof (reach_full_desc_exact G heads eqv S ins R) as D.
+  destruct (reach_full_invariants t lbl G heads eqv S ins R) as [CI [CO [BASE [IN [TR W]]]]].
+  apply (find_ghost_restart_is_spec_ghost t lbl ws G ins ph (S ph) eqv heads c); auto.
+  - now apply desc_exact_complete.
+  - now apply desc_exact_sound.
+Qed.
+
+(* the memoisation step of Round (importPrevote: prevoteGhost, PrecommitGHOST: precommitGhost): the
+   previous ghost [prev], computed for an earlier vote set V0 of the phase, is fed back as [current]
+   once the votes seen reach the threshold; the result is the specification's ghost of the votes
+   seen so far *)
+Theorem reach_full_ghost_memo_step ws G heads eqv S ins ph prev V0 :
+  reach_full t lbl G heads eqv S ins -> (ph < 2)%nat ->
+  (0 < total ws)%N -> tolerant ws (S ph) = true -> (forall x, In x (S ph) -> in_tree t (vblock x)) ->
+  subset V0 (S ph) -> prev = ghost t ws V0 ->
+  (if (th ws <=? cur_weight ws (S ph))%N then find_ghost t lbl G heads prev (cond_ph ws eqv ph) else prev)
+  = ghost t ws (S ph).
+Proof.
+  intros R L TP TOL IT SUB PV. unfold th. destruct (N.leb_spec (threshold ws) (cur_weight ws (S ph))) as [LE|LT].
+  - destruct prev as [c|].
+    + apply (reach_full_find_ghost_restart ws G heads eqv S ins ph c R L TP TOL IT).
+      symmetry in PV. unfold ghost in PV. apply find_some in PV. destruct PV as [_ SC].
+      exact (has_supermajority_mono t ws V0 (S ph) c SUB SC).
+    + exact (reach_full_find_ghost_is_spec_ghost ws G heads eqv S ins ph R L TP TOL IT).
+  - assert (G1 : ghost t ws (S ph) = None).
+    { destruct (ghost t ws (S ph)) as [x|] eqn:E; [|reflexivity].
+      assert (threshold ws <= cur_weight ws (S ph))%N by (apply (ghost_defined t ws (S ph)); eauto). lia. }
+    rewrite G1, PV. destruct (ghost t ws V0) as [x|] eqn:E; [|reflexivity].
+    assert (threshold ws <= cur_weight ws V0)%N by (apply (ghost_defined t ws V0); eauto).
+    pose proof (cur_weight_mono ws V0 (S ph) SUB). lia.
+Qed.
+
+(* Round.PrecommitGHOST on a mirror state whose graph is reachable *)
+Theorem precommit_ghost_is_spec_ghost ws s S ins V0 :
+  reach_full t lbl (r_G s) (r_heads s) (r_eqv s) S ins -> r_pc s = S 1%nat ->
+  (0 < total ws)%N -> tolerant ws (r_pc s) = true -> (forall x, In x (r_pc s) -> in_tree t (vblock x)) ->
+  subset V0 (r_pc s) -> r_pcg s = ghost t ws V0 ->
+  r_pcg (precommit_ghost t lbl ws s) = ghost t ws (r_pc s).
+Proof.
+  intros R E TP TOL IT SUB PV. rewrite E in *.
+  pose proof (reach_full_ghost_memo_step ws (r_G s) (r_heads s) (r_eqv s) S ins 1 (r_pcg s) V0 R
+                ltac:(lia) TP TOL IT SUB PV) as H.
+  unfold precommit_ghost. rewrite E. fold (th ws).
+  destruct (th ws <=? cur_weight ws (S 1%nat))%N; cbn [r_pcg]; exact H.
 Qed.
 
 End DescBranch.
@@ -1151,10 +1451,10 @@ Proof. exact find_ghost_is_spec_ghost. Qed.
 Print Assumptions C20_graph_find_ghost_is_spec_ghost.
 
 (* Insert keeps "g_desc lists exactly the child vote-nodes" on all three paths *)
-Theorem C20_graph_reach_full_desc_ok : forall t lbl G heads eqv S ins,
-  reach_full t lbl G heads eqv S ins -> desc_ok G.
-Proof. exact reach_full_desc_ok. Qed.
-Print Assumptions C20_graph_reach_full_desc_ok.
+Theorem C20_graph_reach_full_desc_exact : forall t lbl G heads eqv S ins,
+  reach_full t lbl G heads eqv S ins -> desc_exact G.
+Proof. exact reach_full_desc_exact. Qed.
+Print Assumptions C20_graph_reach_full_desc_exact.
 
 Theorem C20_graph_reach_full_find_ghost_is_spec_ghost : forall t lbl ws G heads eqv S ins ph,
   reach_full t lbl G heads eqv S ins -> (ph < 2)%nat ->
@@ -1171,3 +1471,31 @@ Theorem C20_graph_reach_full_find_ghost_from_node : forall t lbl ws G heads eqv 
   if has_supermajority t ws (S ph) c then ghost t ws (S ph) else None.
 Proof. exact reach_full_find_ghost_from_node. Qed.
 Print Assumptions C20_graph_reach_full_find_ghost_from_node.
+
+(* the restart from the previous ghost c (any block that still has a supermajority) *)
+Theorem C20_graph_reach_full_find_ghost_restart : forall t lbl ws G heads eqv S ins ph c,
+  reach_full t lbl G heads eqv S ins -> (ph < 2)%nat ->
+  (0 < total ws)%N -> tolerant ws (S ph) = true -> (forall x, In x (S ph) -> in_tree t (vblock x)) ->
+  has_supermajority t ws (S ph) c = true ->
+  find_ghost t lbl G heads (Some c) (cond_ph ws eqv ph) = ghost t ws (S ph).
+Proof. exact reach_full_find_ghost_restart. Qed.
+Print Assumptions C20_graph_reach_full_find_ghost_restart.
+
+(* the memoised ghost fed back as [current] (prevoteGhost in importPrevote, precommitGhost in
+   PrecommitGHOST) stays the specification's ghost *)
+Theorem C20_graph_reach_full_ghost_memo_step : forall t lbl ws G heads eqv S ins ph prev V0,
+  reach_full t lbl G heads eqv S ins -> (ph < 2)%nat ->
+  (0 < total ws)%N -> tolerant ws (S ph) = true -> (forall x, In x (S ph) -> in_tree t (vblock x)) ->
+  subset V0 (S ph) -> prev = ghost t ws V0 ->
+  (if (th ws <=? cur_weight ws (S ph))%N then find_ghost t lbl G heads prev (cond_ph ws eqv ph) else prev)
+  = ghost t ws (S ph).
+Proof. exact reach_full_ghost_memo_step. Qed.
+Print Assumptions C20_graph_reach_full_ghost_memo_step.
+
+Theorem C20_graph_precommit_ghost_is_spec_ghost : forall t lbl ws s S ins V0,
+  reach_full t lbl (r_G s) (r_heads s) (r_eqv s) S ins -> r_pc s = S 1%nat ->
+  (0 < total ws)%N -> tolerant ws (r_pc s) = true -> (forall x, In x (r_pc s) -> in_tree t (vblock x)) ->
+  subset V0 (r_pc s) -> r_pcg s = ghost t ws V0 ->
+  r_pcg (precommit_ghost t lbl ws s) = ghost t ws (r_pc s).
+Proof. exact precommit_ghost_is_spec_ghost. Qed.
+Print Assumptions C20_graph_precommit_ghost_is_spec_ghost.
